@@ -77,6 +77,55 @@ fn new_read(bytes: &[u8]) -> Result<Vec<NItem>, usize> {
     Ok(out)
 }
 
+
+/// The same message through the new API's other reading route: the message view, then one
+/// question or record after the other with `split_message_bytes`, an OPT record turned into an
+/// `EdnsRecord` with `TryFrom` (and back with `From`). Err(index of the item that failed).
+fn new_read_low_level(bytes: &[u8]) -> Result<Vec<NItem>, usize> {
+    use domain::new::base::Message as NewMessage;
+    use domain::new::rdata::Opt as NewOpt;
+    step("new::Message::parse_bytes");
+    let m = <&NewMessage>::parse_bytes(bytes).map_err(|_| usize::MAX)?;
+    let cn = &m.header.counts;
+    let (nq, nrec) = (cn.questions.get() as usize, cn.answers.get() as usize + cn.authorities.get() as usize + cn.additionals.get() as usize);
+    let first_additional = nq + cn.answers.get() as usize + cn.authorities.get() as usize;
+    let mut out = Vec::new();
+    let mut off = 0usize;
+    step("new::Question::split_message_bytes");
+    for i in 0..nq {
+        let (q, o2) = <NewQuestion<RevNameBuf>>::split_message_bytes(&m.contents, off).map_err(|_| i)?;
+        off = o2;
+        out.push(NItem { section: 0, owner: q.qname.to_name().as_bytes().to_vec(), rtype: q.qtype.code.get(), class: q.qclass.code.get(), ttl: 0, rdata: vec![] });
+    }
+    step("new::Record::split_message_bytes");
+    for j in 0..nrec {
+        let i = nq + j;
+        let (r, o2) = <NewRecord<RevNameBuf, NewRecordData<'_, NameBuf>>>::split_message_bytes(&m.contents, off).map_err(|_| i)?;
+        off = o2;
+        let owner = r.rname.to_name().as_bytes().to_vec();
+        if r.rtype.code.get() == 41 && owner == [0u8] && i >= first_additional {
+            step("new::EdnsRecord::try_from(Record)");
+            let e: EdnsRecord<&NewOpt> = r.try_into().map_err(|_| i)?;
+            let ttl = ((e.ext_rcode as u32) << 24) | ((e.version as u32) << 16) | (e.flags.bits() as u32);
+            let data = e.data.as_bytes().to_vec();
+            let class = e.max_udp_payload.get();
+            // and back into a record: class and TTL carry the same fields again
+            step("new::Record::from(EdnsRecord)");
+            let back: NewRecord<&domain::new::base::name::Name, NewRecordData<'_, &domain::new::base::name::Name>> = e.into();
+            if back.rclass.code.get() != class || back.ttl.value.get() != ttl || back.rtype.code.get() != 41 {
+                return Err(i);
+            }
+            out.push(NItem { section: 3, owner: vec![0], rtype: 41, class, ttl, rdata: data });
+        } else {
+            out.push(NItem { section: 9, owner, rtype: r.rtype.code.get(), class: r.rclass.code.get(), ttl: r.ttl.value.get(), rdata: build_to_vec(&r.rdata).ok_or(i)? });
+        }
+    }
+    if off != m.contents.len() {
+        // (trailing octets: the item-wise reading does not look at them, the parser does not either)
+    }
+    Ok(out)
+}
+
 /// Items as the established codec reads them ("accepts a record" = header
 /// parses and the data parses as AllRecordData).
 fn old_read(bytes: &[u8]) -> Result<Vec<NItem>, usize> {
@@ -337,6 +386,39 @@ fn diff_one(c: &mut Ctx, fam: &str, idx: u64, bytes: &[u8], kind: &str) {
         (Ok(mut ni), Ok(oi)) => {
             assign_sections(&mut ni, counts);
             c.count("both_accept", 1);
+            // the new API's two reading routes give the same items
+            match ctx::catch(|| new_read_low_level(bytes)) {
+                Err(pi) => {
+                    let rp = c.replay_of(fam, idx, ex());
+                    c.violation(&format!("panic:{}", pi.site()), &format!("panic reading a message item by item with the new codec: {} at {}:{}", pi.msg, pi.file, pi.line), rp);
+                    return;
+                }
+                Ok(Err(i)) => {
+                    let rp = c.replay_of(fam, idx, ex());
+                    c.violation("new-routes:item-wise-reading-refuses", &format!("MessageParser reads the message, reading it item by item (split_message_bytes, EdnsRecord::try_from) fails at item {}", i), rp);
+                    return;
+                }
+                Ok(Ok(mut li)) => {
+                    assign_sections(&mut li, counts);
+                    if li.len() != ni.len() {
+                        let rp = c.replay_of(fam, idx, ex());
+                        c.violation("new-routes:item-count", &format!("MessageParser reads {} items, item-wise reading {}", ni.len(), li.len()), rp);
+                        return;
+                    }
+                    for (k, (a, b)) in ni.iter().zip(&li).enumerate() {
+                        if a.section != b.section || a.owner != b.owner || a.rtype != b.rtype || a.class != b.class || a.ttl != b.ttl || a.rdata != b.rdata {
+                            let what = if a.rtype == 41 && b.rtype == 41 && (a.class != b.class || a.ttl != b.ttl) { "edns-fixed-fields" } else if a.rdata != b.rdata { "rdata" } else { "header-fields" };
+                            let rp = c.replay_of(fam, idx, ex());
+                            c.violation(&format!("new-routes:{}", what), &format!("item {} (TYPE{}): MessageParser gives class/size {} ttl {:#010x}, item-wise reading (split_message_bytes / EdnsRecord::try_from) class/size {} ttl {:#010x}", k, a.rtype, a.class, a.ttl, b.class, b.ttl), rp);
+                            return;
+                        }
+                    }
+                    c.count("new_routes_compared", 1);
+                    if li.iter().any(|x| x.rtype == 41 && x.section == 3 && (x.ttl >> 24) != ((x.ttl >> 16) & 0xff)) {
+                        c.count("edns_records_with_distinct_rcode_and_version", 1);
+                    }
+                }
+            }
             if ni.len() != oi.len() {
                 let rp = c.replay_of(fam, idx, ex());
                 c.violation("both-accept:item-count", &format!("new codec reads {} items, established codec {}", ni.len(), oi.len()), rp);
@@ -1091,6 +1173,8 @@ pub fn run(c: &mut Ctx) {
         build_one(c, fam, idx, &mut rng);
     }
     if !c.replaying() && !miri {
+        c.floor("new_routes_compared", 1000);
+        c.floor("edns_records_with_distinct_rcode_and_version", 10);
         c.floor("both_accept", 1000);
         c.floor("both_reject", 100);
         c.floor("names_both_accept", 1000);
